@@ -158,11 +158,14 @@ def check_program(ctx, rng, src, origin, npatterns):
         for f in cc.BODY_FIELDS:
             if isinstance(getattr(n, f, None), list) and getattr(n, f):
                 ctx.seen('statement_positions', '%s.%s' % (type(n).__name__, f))
-    for _ in range(npatterns):
+    node_queries = 0
+    for turn in range(npatterns):
+        if turn == 1:
+            node_queries = ask_statement_nodes(ctx, rng, src, tree)
         d = cc.derive(rng, tree)
         if d is None:
             continue
-        if not check_pair(ctx, src, tree, d, origin):
+        if not check_pair(ctx, src, tree, d, origin + (':after-node-level-queries' if node_queries else '')):
             continue
         # monotonicity: generalise the SAME fragment further, it must still match
         import copy
@@ -188,6 +191,45 @@ def check_program(ctx, rng, src, origin, npatterns):
             ctx.count('monotonic_steps_checked')
             if not check_pair(ctx, src, tree, d, origin + ':further-generalised'):
                 break
+
+
+def ask_statement_nodes(ctx, rng, src, tree):
+    """questions put to single nodes of the (cached) student tree - a statement that is just a call, asked for its own call - as
+    graders do through match['__body__'].find_matches(...): each finds itself, and what is asked afterwards is unaffected"""
+    from pedal.cait.cait_api import parse_program
+    try:
+        root = parse_program()
+    except Exception:
+        return 0
+    asked = 0
+    stmts = [n for n in ast.walk(tree) if isinstance(n, ast.Expr) and isinstance(n.value, ast.Call)]
+    rng.shuffle(stmts)
+    for stmt in stmts[:3]:
+        try:
+            pattern = ast.unparse(stmt.value)
+            ast.parse(pattern)
+        except Exception:
+            continue
+        if '__' in pattern or any(isinstance(x, ast.Name) and x.id.startswith('_') for x in ast.walk(stmt)):
+            continue
+        node = None
+        for cand in root.find_all('Expr'):
+            if getattr(cand, 'lineno', None) == stmt.lineno and getattr(cand, 'col_offset', None) == stmt.col_offset:
+                node = cand
+                break
+        if node is None:
+            continue
+        case = {'src': src[:3500], 'pattern': pattern, 'origin': 'node-level', 'steps': ['verbatim'], 'presented': cc.PRESENTED['how'], 'node': [stmt.lineno, stmt.col_offset]}
+        try:
+            found = node.find_matches(pattern)
+        except Exception as e:
+            ctx.violation('C11|find_matches-raised|%s|%s|node-level' % (type(e).__name__, site_of(e)), case, traceback.format_exc()[-400:])
+            continue
+        asked += 1
+        ctx.count('node_level_questions')
+        if not found:
+            ctx.violation('C11|no-match-for-derived-pattern|root=Expr-node|steps=verbatim|node-level', case, 'the statement node does not contain its own call')
+    return asked
 
 
 def gen_small(rng):
